@@ -254,7 +254,7 @@ func randString(r *rand.Rand, max int) string {
 }
 
 func RandomMeta(r *rand.Rand, size int) raft.SnapshotMeta {
-	m := raft.SnapshotMeta{Version: raft.SnapshotVersion(r.Intn(2)), ID: randString(r, 40), Index: uint64(r.Int63n(1 << 50)), Term: uint64(r.Int63n(1 << 30)),
+	m := raft.SnapshotMeta{Version: raft.SnapshotVersionMax, ID: randString(r, 40), Index: uint64(r.Int63n(1 << 50)), Term: uint64(r.Int63n(1 << 30)),
 		ConfigurationIndex: uint64(r.Int63n(1 << 50)), Size: int64(size)}
 	if r.Intn(3) > 0 {
 		m.Peers = make([]byte, r.Intn(60))
@@ -375,6 +375,10 @@ type World struct {
 	Log    hclog.Logger
 	TmpDir string
 	zw     *gzip.Writer
+	// Perturb > 0 (self-test of the binding only): the Perturb-th rejection by archive.go read is
+	// recorded as if the archive had been accepted with its original content.
+	Perturb  int
+	rejected int
 }
 
 // NewWorld starts a single-server in-memory Raft (non-ASCII server id / address) whose FSM records
@@ -752,6 +756,7 @@ type Obs struct {
 	FsmAfterReject                   bool // FSM.Restore reached although snapshot.Restore returned an error
 	FsmDiff                          bool // bytes handed to FSM.Restore differ from the original state
 	TmpLeaked                        int
+	Errs                             map[string]string // error texts, informational only (never compared)
 }
 
 func kind(err error, stateSame, metaSame bool) string {
@@ -766,13 +771,24 @@ func kind(err error, stateSame, metaSame bool) string {
 
 // Run calls the real readers on the current bytes of the archive.
 func (w *World) Run(b *Base, a *Arch) (Obs, []byte) {
-	var o Obs
+	o := Obs{Errs: map[string]string{}}
+	note := func(api string, err error) {
+		if err != nil {
+			o.Errs[api] = err.Error()
+		}
+	}
 	if a.Wrap == "plain" {
 		data := Concat(a.Tar)
 		var m raft.SnapshotMeta
 		var out bytes.Buffer
 		err := snapshot.VerifRead(bytes.NewReader(data), &m, &out)
+		note("verifread", err)
 		o.VerifRead = kind(err, bytes.Equal(out.Bytes(), b.Payload), MetaEqual(&m, &b.Meta))
+		if err != nil && w.Perturb > 0 {
+			if w.rejected++; w.rejected == w.Perturb {
+				o.VerifRead = "same"
+			}
+		}
 		return o, data
 	}
 	var data []byte
@@ -783,6 +799,7 @@ func (w *World) Run(b *Base, a *Arch) (Obs, []byte) {
 	}
 	// snapshot.Verify (consul snapshot save / inspect)
 	m, err := snapshot.Verify(bytes.NewReader(data))
+	note("verify", err)
 	if err != nil {
 		o.Verify = "rejected"
 	} else {
@@ -790,6 +807,7 @@ func (w *World) Run(b *Base, a *Arch) (Obs, []byte) {
 	}
 	// snapshot.Read (extracts state.bin into a temp file)
 	f, m2, err := snapshot.Read(w.Log, bytes.NewReader(data))
+	note("read", err)
 	if err != nil {
 		o.Read = "rejected"
 	} else {
@@ -802,6 +820,7 @@ func (w *World) Run(b *Base, a *Arch) (Obs, []byte) {
 	if !b.NoRestore {
 		before := w.FSM.count()
 		err = snapshot.Restore(w.Log, bytes.NewReader(data), w.Raft)
+		note("restore", err)
 		o.FsmCalls = w.FSM.count() - before
 		if err != nil {
 			o.Restore = "rejected"
@@ -821,15 +840,17 @@ func (w *World) Run(b *Base, a *Arch) (Obs, []byte) {
 // ---------------------------------------------------------------- candidates
 
 type Tier struct {
-	Pats      []int
-	Exhaust   int // regions up to this length get every byte position
-	Stride    int // number of strided positions in larger regions
-	PairK     int // position pairs per two-fault scenario and base
-	PairBases int // bases per two-fault scenario (0 = all)
+	Pats       []int
+	SumsPats   []int // additional patterns inside SHA256SUMS (hex letter case, LF -> other white space)
+	Exhaust    int // regions up to this length get every byte position
+	Stride     int // number of strided positions in larger regions
+	PairK      int // position pairs per two-fault scenario and base
+	PairBases  int // bases per two-fault scenario (0 = all)
+	GzTarEvery int // single tar-level faults inside the gzip wrap: every n-th candidate (plain gets all)
 }
 
-var Quick = Tier{Pats: []int{0x01, 0x80, 0xff, 0x20}, Exhaust: 4096, Stride: 96, PairK: 3, PairBases: 2}
-var Thorough = Tier{Pats: []int{0x01, 0x80, 0xff, 0x20, 0x10, 0x07, 0x2a, 0x55}, Exhaust: 4096, Stride: 512, PairK: 12, PairBases: 0}
+var Quick = Tier{Pats: []int{0x01, 0x80, 0xff}, SumsPats: []int{0x20, 0x07}, Exhaust: 4096, Stride: 96, PairK: 3, PairBases: 1, GzTarEvery: 12}
+var Thorough = Tier{Pats: []int{0x01, 0x80, 0xff, 0x20, 0x10, 0x55}, SumsPats: []int{0x07, 0x2a, 0x03, 0x06}, Exhaust: 4096, Stride: 512, PairK: 12, PairBases: 6, GzTarEvery: 1}
 
 func positions(n int, t Tier, r *rand.Rand, lo int) []int {
 	// positions lo..n-1 ; every one for small regions, boundaries +-3 and a seeded stride for large
@@ -880,8 +901,12 @@ func (w *World) Candidates(b *Base, a *Arch, f Fault, t Tier, r *rand.Rand) ([]P
 		if sums {
 			probe = append([]byte(nil), s.B...)
 		}
+		pats := t.Pats
+		if sums {
+			pats = append(append([]int(nil), t.Pats...), t.SumsPats...)
+		}
 		for _, pos := range positions(len(s.B), t, r, 0) {
-			for _, pat := range t.Pats {
+			for _, pat := range pats {
 				if sums {
 					probe[pos] ^= byte(pat)
 					st := b.SumsStatus(probe)
